@@ -38,7 +38,7 @@ Strs == {[id |-> "str:" \o t, cls |-> "str", s |-> Unescape(t)] : t \in StrTexts
 Bools == {[id |-> "bool:t", cls |-> "bool", b |-> TRUE], [id |-> "bool:f", cls |-> "bool", b |-> FALSE]}
 Fallbacks == {[id |-> x, cls |-> "fallback"] : x \in
   {"nil", "nilptr:int", "nilptr:string", "nilptr:struct", "nilptr:slice", "nilptr:map", "nilptr:vstringer", "nilptr:pstringer",
-   "nilptr:vnumber", "nilptr:vboolean",
+   "nilptr:vnumber", "nilptr:vboolean", "nilptrsafe",
    (* nil pointers to types whose methods have POINTER receivers: methods that dereference (a call would panic) and methods
       that tolerate nil and answer something (a call would return it instead of the fallback) *)
    "nilptr:pstrict", "nilptr:pnumber", "nilptr:pboolean", "nilptr:ptolerant", "slice:int:1,2", "slice:int:", "slice:nilint", "map:ss:k=v", "map:nilss", "struct:person",
@@ -52,7 +52,16 @@ Decimals == {[id |-> "decimal:" \o ToString(q), cls |-> "num", q |-> q] : q \in 
    each coercion asks its own interface *)
 Alls == {[id |-> "all:" \o s \o ":" \o ToString(q) \o ":" \o b, cls |-> "all", s |-> s, q |-> q, b |-> (b = "t")]
            : s \in {"abc", "0", ""}, q \in {0, 96, 0 - 64}, b \in {"t", "f"}}
-Plain == Nums \cup Bigs \cup Strs \cup Bools \cup Fallbacks \cup Stringers \cup Numbers \cup Booleans \cup Decimals \cup Alls
+(* defined types over the basic kinds (type serial int64, type weight float64, type colour string, type onoff bool) and uintptr:
+   the value is carried by its kind, whichever type name it has *)
+Named == {[id |-> "named:int64:" \o n[1], cls |-> "num", q |-> n[2] * Scale] : n \in {<<"5", 5>>, <<"0", 0>>, <<"-3", 0 - 3>>, <<"127", 127>>}}
+         \cup {[id |-> "named:uintptr:" \o n[1], cls |-> "num", q |-> n[2] * Scale] : n \in {<<"5", 5>>, <<"0", 0>>, <<"255", 255>>}}
+         \cup {[id |-> "named:float64:1.5", cls |-> "num", q |-> 96], [id |-> "named:float64:0", cls |-> "num", q |-> 0]}
+         \cup {[id |-> "named:string:" \o t, cls |-> "str", s |-> t] : t \in {"abc", "1.5", ""}}
+         \cup {[id |-> "named:bool:t", cls |-> "bool", b |-> TRUE], [id |-> "named:bool:f", cls |-> "bool", b |-> FALSE]}
+(* a million nested wrappers of an application's own SafeValue type: the depth of nesting is data, not a recursion budget *)
+Deep == {[id |-> "csafedeep:1000000", cls |-> "str", s |-> "abc"]}
+Plain == Deep \cup Nums \cup Bigs \cup Strs \cup Bools \cup Fallbacks \cup Stringers \cup Numbers \cup Booleans \cup Decimals \cup Alls \cup Named
 SafeInner == {d \in Plain : d.id \in {"num:int8:192", "num:float64:96", "str:abc", "str:1.5", "str:", "bool:t", "bool:f", "nil",
                                      "stringer:abc", "number:96", "boolean:t", "decimal:96", "nilptr:vstringer", "slice:int:1,2",
                                      "num:uint16:4194240", "num:float32:-160", "nilptr:pstrict", "nilptr:pnumber", "nilptr:ptolerant",
